@@ -248,6 +248,10 @@ func (db *SpecDB) LoadFile(path string, pkgPath string, trusted bool) error {
 			if kind == "call?" {
 				kind, optional = "call", true
 			}
+			if kind == "store?" {
+				// checked at every matching store; with the formula `false` this forbids such stores
+				kind, optional = "store", true
+			}
 			key := kind
 			r3 := r2
 			if kind == "call" || kind == "store" || kind == "join" {
